@@ -21,8 +21,8 @@ func init() {
 			depth, budget = 7, 20*time.Minute
 		}
 		return CheckSpec{Level: "model_checking", Rule: searchRule, Assumptions: append([]string{
-			"IBC core's proof verification and ordered-channel bookkeeping are replaced by the harness Net shim (a timeout closes the ordered channel before the callback, as ibc-go v10 does)",
-			"an error acknowledgement and a counterparty channel close are injected by the shim (a provider never produces a packet an honest consumer rejects)",
+			"IBC is ibc-go's real core message server on both chains (handshakes, MsgRecvPacket, MsgAcknowledgement, MsgTimeout: client status, timeouts, sequences, commitments, acknowledgements, rollback are ibc-go's code); only Merkle proof verification is answered by a proof oracle that looks the claimed key up in the counterparty's actual store, and light-client updates are written as consensus states",
+			"an error acknowledgement (forged, through the retired shim path) and a counterparty channel close (harness-level write) are injected: a provider never produces a packet an honest consumer rejects",
 			"the slash ack of the fixture is seeded through the keeper (its real path is judged by C08)",
 		}, commonAssumptions...), Budget: budget,
 			Units:   []Unit{Search{Sc: Stop{Variant: "base"}, Depth: depth}, Search{Sc: Stop{Variant: "latechan"}, Depth: depth}},
